@@ -2,6 +2,7 @@ import Rbql.Model.Basic
 import Rbql.Model.Csv
 import Rbql.Model.ReaderPy
 import Rbql.Model.ReaderJs
+import Rbql.Model.Utf8
 import Rbql.Model.Writer
 import Rbql.Model.Like
 import Rbql.Model.PyString
@@ -115,6 +116,17 @@ def step (line : String) : String :=
   | ["readjs", pol, enc, hdr, modi, d, comment, pieces] =>
     let c := mkCfg pol enc "0" d comment
     encRead (jsResult (jsStream c (decList pieces)) (decBool hdr) (decMod modi))
+  | ["utf8dec", chunks] =>
+    -- the streaming UTF-8 decoder of the rbql-js reader: one decoded piece per byte chunk, or a decoding error
+    (match decodeStream ((decList chunks).map (fun ch => ch.map (fun c => c.toNat.toUInt8))) with
+     | .ok ps => "ok " ++ encList ps
+     | .error _ => "err")
+  | ["readjsbytes", pol, hdr, modi, d, comment, chunks] =>
+    -- byte chunks -> streaming decoder -> stream reader (what rbql-js does with a utf-8 input stream)
+    let c := mkCfg pol "utf-8" "0" d comment
+    (match decodeStream ((decList chunks).map (fun ch => ch.map (fun c => c.toNat.toUInt8))) with
+     | .ok ps => encRead (jsResult (jsStream c ps) (decBool hdr) (decMod modi))
+     | .error _ => "err decode")
   | ["readjsfile", pol, enc, hdr, modi, d, comment, text] =>
     let c := mkCfg pol enc "0" d comment
     encRead (jsResult (jsBulk c (decStr text)) (decBool hdr) (decMod modi))
